@@ -405,6 +405,26 @@ func init() {
 	addItems("C16", func(tier string) []Item {
 		var it []Item
 		for kind := 0; kind <= 2; kind++ {
+			for form := 1; form <= 2; form++ {
+				it = append(it, Item{PkgKey: "joinserver", Func: "VerifC16_HandlerKEKForms", Shape: []int{kind, form}})
+			}
+		}
+		for kind := 0; kind <= 5; kind++ {
+			it = append(it, Item{PkgKey: "joinserver", Func: "VerifC16_HandlerDefaults", Shape: []int{kind}})
+		}
+		return it
+	})
+	addItems("C09", func(tier string) []Item {
+		// "never hang": every registry entry point releases the lock on every path (shared with C10)
+		var it []Item
+		for _, l := range rng(0, 3) {
+			it = append(it, Item{PkgKey: "root", Func: "VerifC10_Locks", Shape: []int{l}})
+		}
+		return it
+	})
+	addItems("C16", func(tier string) []Item {
+		var it []Item
+		for kind := 0; kind <= 2; kind++ {
 			for _, l := range []int{16, 32} {
 				it = append(it, Item{PkgKey: "joinserver", Func: "VerifC16_HandlerStore", Shape: []int{kind, l}})
 			}
